@@ -1,6 +1,6 @@
 (* Proofs of the generic theorems of Spec/MsgSpec.v (C05) about the field-level IR and its interpreter. *)
 From Coq Require Import ZArith List Bool Lia.
-From N2kV Require Import Model.SoftFloat Model.NumDefs Model.MsgIR Model.MsgExec Spec.NumSpec Proofs.NumProofs Spec.MsgSpec.
+From N2kV Require Import Model.SoftFloat Model.NumDefs Model.MsgIR Model.MsgExec Spec.NumSpec Proofs.NumProofs Spec.MsgSpec Spec.RefLayouts.
 Import ListNotations.
 Local Open Scope Z_scope.
 
@@ -524,6 +524,7 @@ Section SetterSim.
     match ab with
     | ABits l => length l = 8%nat /\ byte_range b /\ forall t, (t < 8)%nat -> Z.testbit b (Z.of_nat t) = bt_val beta (nth t l B0)
     | ADbl n s p d i => b = nth i (add_double n s (deval rho d) p) 0
+    | AStr len a i => b = nth i (add_str len (arg_txt (e_args rho) a)) 0
     | AOpq => True
     end.
 
@@ -570,7 +571,9 @@ Section SetterSim.
     - destruct d; try discriminate; inversion H; subst; eexists; (split; [reflexivity|]);
         (apply Forall2_app; [exact R|apply dbl_bytes_rel]).
     - destruct (0 <=? len) eqn:L; [|discriminate]. apply Z.leb_le in L. inversion H; subst.
-      eexists; split; [reflexivity|]. apply Forall2_app; [exact R|]. apply opaque_rel. now apply add_str_length.
+      eexists; split; [reflexivity|]. apply Forall2_app; [exact R|].
+      apply (Forall2_of_nth (byte_rel) AOpq 0); [rewrite map_length, seq_length, add_str_length by exact L; reflexivity|].
+      rewrite map_length, seq_length. intros i Hi. rewrite nth_map_seq by exact Hi. reflexivity.
     - destruct ((0 <=? len) && (Z.of_nat (length ap) + len <=? max_data_len)) eqn:L; [|discriminate].
       apply andb_true_iff in L. destruct L as [L0 L1]. apply Z.leb_le in L0. apply Z.leb_le in L1. inversion H; subst.
       eexists; split; [reflexivity|]. apply Forall2_app; [exact R|]. apply opaque_rel.
@@ -717,6 +720,51 @@ Section ParserSim.
     unfold field. cbn [Z.to_nat skipn]. rewrite firstn_all2 by (rewrite add_double_length; lia). reflexivity.
   Qed.
 
+  Lemma dbl_window_field n s p d idx : inside ap idx (Z.of_nat n) = true ->
+    is_dbl_window (window ap idx n) n s p d 0 = true -> field n idx (m_data m) = add_double n s (deval rho d) p.
+  Proof.
+    intros In W. destruct (inside_fits idx n In) as [F [I0 IL]].
+    assert (WL := window_len idx n IL). assert (WR := window_rel idx n).
+    assert (FL: length (field n idx (m_data m)) = n) by (rewrite <- (Forall2_len _ _ _ WR); exact WL).
+    apply (nth_ext _ _ 0 0); [rewrite FL, add_double_length; reflexivity|]. intros i Hi. rewrite FL in Hi.
+    assert (Q := Forall2_nth_rel _ AOpq 0 _ _ WR i ltac:(lia)).
+    rewrite (is_dbl_window_nth n s p d _ 0 W i) in Q by lia. exact Q.
+  Qed.
+
+  Lemma is_str_window_nth len a : forall l k, is_str_window l len a k = true ->
+    forall i, (i < length l)%nat -> nth i l AOpq = AStr len a (k + i).
+  Proof.
+    induction l as [|b l IH]; intros k H i Hi; [simpl in Hi; lia|]. cbn [is_str_window] in H.
+    destruct b; try discriminate. rewrite !andb_true_iff in H. destruct H as [[[A B] C] D].
+    apply Z.eqb_eq in A. apply Nat.eqb_eq in B. apply Nat.eqb_eq in C. subst.
+    destruct i as [|i]; cbn [nth]; [f_equal; lia|]. rewrite (IH _ D i) by (simpl in Hi; lia). f_equal. lia.
+  Qed.
+
+  Lemma str_window_field len a idx : 0 <= len -> inside ap idx len = true ->
+    is_str_window (window ap idx (Z.to_nat len)) len a 0 = true ->
+    field (Z.to_nat len) idx (m_data m) = add_str len (arg_txt (e_args rho) a).
+  Proof.
+    intros L0 In W. set (n := Z.to_nat len) in *. replace len with (Z.of_nat n) in In by lia.
+    destruct (inside_fits idx n In) as [F [I0 IL]].
+    assert (WL := window_len idx n IL). assert (WR := window_rel idx n).
+    assert (FL: length (field n idx (m_data m)) = n) by (rewrite <- (Forall2_len _ _ _ WR); exact WL).
+    apply (nth_ext _ _ 0 0); [rewrite FL, add_str_length by exact L0; reflexivity|]. intros i Hi. rewrite FL in Hi.
+    assert (Q := Forall2_nth_rel _ AOpq 0 _ _ WR i ltac:(lia)).
+    rewrite (is_str_window_nth len a _ 0 W i) in Q by lia. exact Q.
+  Qed.
+
+  Lemma int_bit_rel k b : pbit ap k = Some b -> 0 <= k ->
+    Z.testbit (nth (Z.to_nat (k / 8)) (m_data m) 0) (k mod 8) = bt_val beta b.
+  Proof.
+    unfold pbit. intros H Hk. set (i := Z.to_nat (k / 8)) in *.
+    destruct (nth i ap AOpq) as [l| | |] eqn:N; try discriminate. inversion H; subst b; clear H.
+    assert (Hi: (i < length ap)%nat).
+    { destruct (Nat.lt_ge_cases i (length ap)); [assumption|]. rewrite nth_overflow in N by lia. discriminate. }
+    assert (Q := Forall2_nth_rel _ AOpq 0 _ _ Hdata i Hi). rewrite N in Q. destruct Q as [_ [_ Q]].
+    assert (M: 0 <= k mod 8 < 8) by (apply Z.mod_pos_bound; lia).
+    rewrite <- (Z2Nat.id (k mod 8)) at 1 by lia. apply Q. lia.
+  Qed.
+
   Lemma alookup_cons k k' s l : alookup k' ((k, s) :: l) = if Nat.eqb k k' then Some s else alookup k' l.
   Proof. reflexivity. Qed.
   Lemma lookup_cons k k' (v:argval) l : lookup k' ((k, v) :: l) = if Nat.eqb k k' then Some v else lookup k' l.
@@ -780,7 +828,7 @@ Section ParserSim.
         apply rel_idx, rel_bind; [exact R|]. exists z. split; [reflexivity|exact Rz].
       + destruct (inside ap (a_idx x) (Z.of_nat n) && Nat.ltb 0 n) eqn:C; [|discriminate].
         apply andb_true_iff in C. destruct C as [In Hn]. apply Nat.ltb_lt in Hn.
-        destruct (window ap (a_idx x) n) as [|[|n' s' p' d i'|] r] eqn:W; try discriminate.
+        destruct (window ap (a_idx x) n) as [|[|n' s' p' d i'| |] r] eqn:W; try discriminate.
         destruct i'; try discriminate.
         destruct (is_dbl_window (ADbl n' s' p' d 0 :: r) n s pbits d 0) eqn:DW; [|discriminate]. inversion H; subst x'; clear H.
         rewrite <- W in DW. cbn [exec_read]. rewrite RI. rewrite (read_dbl_rel n s pbits defbits d (a_idx x) In Hn DW).
@@ -909,7 +957,194 @@ Proof.
     replace (c =? nac n s) with false by (symmetry; apply Z.eqb_neq; unfold nac; lia). reflexivity.
 Qed.
 
+(* ================================================================ C15: layouts *)
+Lemma d2i_free_noub r e : d2i_free e = true -> iub r e = false.
+Proof.
+  induction e; cbn [d2i_free iub]; intros H; try reflexivity; try discriminate;
+    try (apply andb_true_iff in H; destruct H as [A B]; rewrite (IHe1 A), (IHe2 B); reflexivity);
+    try (apply IHe; exact H).
+  rewrite !andb_true_iff in H. destruct H as [[A B] C]. rewrite (IHe1 A). cbn [orb].
+  destruct (ieval r e1 =? 0); [apply IHe3; exact C|apply IHe2; exact B].
+Qed.
+
+Lemma exec_w_app r w : forall y0 y1, exec_w r w y0 = Some y1 -> exists ext, y1 = y0 ++ ext.
+Proof.
+  induction w; intros y0 y1 H; cbn [exec_w] in H.
+  - inversion H; subst. exists []. now rewrite app_nil_r.
+  - destruct (exec_w r w1 y0) as [d1|] eqn:E; [|discriminate]. destruct (IHw1 _ _ E) as [x ->]. destruct (IHw2 _ _ H) as [y ->].
+    exists (x ++ y). now rewrite app_assoc.
+  - destruct (iub r e); [discriminate|]. inversion H; subst. eauto.
+  - inversion H; subst. eauto.
+  - inversion H; subst. eauto.
+  - inversion H; subst. eauto.
+  - inversion H; subst. eauto.
+  - inversion H; subst. eauto.
+  - inversion H; subst. eauto.
+  - destruct (iub r c); [discriminate|]. destruct (ieval r c =? 0); [apply IHw2|apply IHw1]; exact H.
+Qed.
+
+Section Layout.
+  Variable beta : nat -> Z.
+  Variable rho : env.
+  Variable g : aenv.
+  Hypothesis Harg : forall a x, ae_arg g a = Some x -> represents beta x (arg_int (e_args rho) a).
+  Hypothesis Hslot : forall k x, ae_slot g k = Some x -> represents beta x (slot_int (e_slots rho) k).
+  Notation rel := (byte_rel beta rho).
+
+  Lemma via_aset w ap ap' fin y0 y1 :
+    match aset g w ap with Some a => (a, true) | None => (ap, false) end = (ap', fin) ->
+    Forall2 rel ap y0 -> exec_w rho w y0 = Some y1 ->
+    exists k rest, y1 = k ++ rest /\ Forall2 rel ap' k /\ (fin = true -> rest = []).
+  Proof.
+    intros H R X. destruct (aset g w ap) as [a|] eqn:E; inversion H; subst; clear H.
+    - destruct (aset_sim beta rho g Harg Hslot w ap ap' y0 E R) as [y2 [X' R']]. rewrite X in X'. inversion X'; subst.
+      exists y2, []. rewrite app_nil_r. auto.
+    - destruct (exec_w_app rho w y0 y1 X) as [ext ->]. exists y0, ext. repeat split; [exact R|discriminate].
+  Qed.
+
+  Lemma aset_pre_sim w : forall ap ap' fin y0 y1, aset_pre g w ap = (ap', fin) -> Forall2 rel ap y0 -> exec_w rho w y0 = Some y1 ->
+    exists k rest, y1 = k ++ rest /\ Forall2 rel ap' k /\ (fin = true -> rest = []).
+  Proof.
+    induction w; intros ap ap' fin y0 y1 H R X; try (eapply via_aset; eauto; fail).
+    - (* WSkip *) cbn in H, X. inversion H; inversion X; subst. exists y1, []. rewrite app_nil_r. auto.
+    - (* WSeq *) cbn [aset_pre] in H. cbn [exec_w] in X.
+      destruct (aset_pre g w1 ap) as [ap1 f1] eqn:E1. destruct (exec_w rho w1 y0) as [d1|] eqn:X1; [|discriminate].
+      destruct (IHw1 _ _ _ _ _ E1 R X1) as [k1 [r1 [D1 [R1 F1]]]].
+      destruct f1.
+      + rewrite (F1 eq_refl), app_nil_r in D1. subst d1. eapply IHw2; eauto.
+      + inversion H; subst. destruct (exec_w_app rho w2 _ _ X) as [ext ->].
+        exists k1, (r1 ++ ext). rewrite app_assoc. repeat split; [exact R1|discriminate].
+    - (* WInt *) cbn [aset_pre] in H. cbn [exec_w] in X.
+      destruct (abs g e) as [v|] eqn:E.
+      + inversion H; subst. destruct (abs_sound beta g rho Harg Hslot e v E) as [Rv U]. rewrite U in X. inversion X; subst.
+        eexists; exists []. rewrite app_nil_r. repeat split. apply Forall2_app; [exact R|now apply int_bytes_rel].
+      + destruct (d2i_free e) eqn:Df.
+        * inversion H; subst. rewrite (d2i_free_noub rho e Df) in X. inversion X; subst.
+          eexists; exists []. rewrite app_nil_r. repeat split. apply Forall2_app; [exact R|].
+          apply opaque_rel. unfold add_int. apply le_bytes_length.
+        * inversion H; subst. destruct (iub rho e); [discriminate|]. inversion X; subst. do 2 eexists. repeat split; [exact R|discriminate].
+    - (* WIf *) cbn [aset_pre] in H. cbn [exec_w] in X.
+      destruct (d2i_free c) eqn:Dc.
+      + rewrite (d2i_free_noub rho c Dc) in X.
+        destruct (aset_pre g w1 ap) as [a1 f1] eqn:E1. destruct (aset_pre g w2 ap) as [a2 f2] eqn:E2.
+        destruct (f1 && f2 && Nat.eqb (length a1) (length a2)) eqn:Q.
+        * rewrite !andb_true_iff in Q. destruct Q as [[Q1 Q2] Q3]. apply Nat.eqb_eq in Q3. subst f1 f2. inversion H; subst; clear H.
+          assert (Fin: forall w a, aset_pre g w ap = (a, true) -> length a = length a1 -> exec_w rho w y0 = Some y1 ->
+                   (forall ap ap' fin y0 y1, aset_pre g w ap = (ap', fin) -> Forall2 rel ap y0 -> exec_w rho w y0 = Some y1 ->
+                      exists k rest, y1 = k ++ rest /\ Forall2 rel ap' k /\ (fin = true -> rest = [])) ->
+                   exists k rest, y1 = k ++ rest /\ Forall2 rel (ap ++ repeat AOpq (length a1 - length ap)) k /\ (true = true -> rest = [])).
+          { intros w a Ea La Xw IH. destruct (IH _ _ _ _ _ Ea R Xw) as [k [r [D [Rk Fk]]]]. rewrite (Fk eq_refl), app_nil_r in D. subst k.
+            destruct (exec_w_app rho w _ _ Xw) as [ext Dx].
+            assert (LL := Forall2_len _ _ _ Rk). assert (L0 := Forall2_len _ _ _ R). rewrite Dx, app_length in LL.
+            exists y1, []. rewrite app_nil_r. repeat split. rewrite Dx. apply Forall2_app; [exact R|]. apply opaque_rel. lia. }
+          destruct (ieval rho c =? 0); [apply (Fin w2 a2 E2 (eq_sym Q3) X IHw2)|apply (Fin w1 a1 E1 eq_refl X IHw1)].
+        * inversion H; subst. assert (X' : exists ext, y1 = y0 ++ ext).
+          { destruct (ieval rho c =? 0); eapply exec_w_app; eauto. }
+          destruct X' as [ext ->]. exists y0, ext. repeat split; [exact R|discriminate].
+      + inversion H; subst. destruct (iub rho c); [discriminate|].
+        assert (X' : exists ext, y1 = y0 ++ ext) by (destruct (ieval rho c =? 0); eapply exec_w_app; eauto).
+        destruct X' as [ext ->]. exists y0, ext. repeat split; [exact R|discriminate].
+  Qed.
+End Layout.
+
+Lemma arg_env_sound gamma sargs : in_range gamma sargs ->
+  forall a x, ae_arg (arg_env gamma) a = Some x -> represents (fun a => arg_int sargs a) x (arg_int sargs a).
+Proof.
+  intros IR a x. cbn [ae_arg arg_env]. destruct (nth_error gamma a) as [[w sg| |]|] eqn:Ga; try discriminate.
+  destruct (0 <? w) eqn:W; [|discriminate]. apply Z.ltb_lt in W. intros Q; inversion Q; subst x.
+  destruct (Forall2_nth_error _ _ _ IR a _ Ga) as [v [Hv Ok]]. destruct v; try contradiction. cbn [arg_ok] in Ok.
+  apply (rep_arg (fun a => arg_int sargs a)); [exact W|]. unfold arg_int. rewrite Hv. exact Ok.
+Qed.
+
+Lemma field_app_l n idx (k rest:list Z) : 0 <= idx -> (Z.to_nat idx + n <= length k)%nat -> field n idx (k ++ rest) = field n idx k.
+Proof.
+  intros H L. unfold field. rewrite skipn_app, firstn_app, skipn_length.
+  replace (n - (length k - Z.to_nat idx))%nat with 0%nat by lia. cbn [firstn]. now rewrite app_nil_r.
+Qed.
+
+Lemma aset_pre_total beta rho g
+  (Harg : forall a x, ae_arg g a = Some x -> represents beta x (arg_int (e_args rho) a))
+  (Hslot : forall k x, ae_slot g k = Some x -> represents beta x (slot_int (e_slots rho) k)) w :
+  forall ap ap' y0, aset_pre g w ap = (ap', true) -> Forall2 (byte_rel beta rho) ap y0 -> exists y1, exec_w rho w y0 = Some y1.
+Proof.
+  induction w; intros ap ap' y0 H R;
+    try (cbn [aset_pre] in H; match type of H with match aset ?g ?w ?ap with _ => _ end = _ =>
+           destruct (aset g w ap) as [a0|] eqn:E; [|discriminate];
+           destruct (aset_sim beta rho g Harg Hslot w ap a0 y0 E R) as [y1 [X _]]; eauto end; fail).
+  - cbn [exec_w]. eauto.
+  - cbn [aset_pre] in H. destruct (aset_pre g w1 ap) as [ap1 f1] eqn:E1. destruct f1; [|discriminate].
+    destruct (IHw1 _ _ _ E1 R) as [y1 X1]. cbn [exec_w]. rewrite X1.
+    destruct (aset_pre_sim beta rho g Harg Hslot w1 _ _ _ _ _ E1 R X1) as [k [r [D [Rk Fk]]]]. rewrite (Fk eq_refl), app_nil_r in D. subst k.
+    eapply IHw2; eauto.
+  - cbn [aset_pre] in H. cbn [exec_w]. destruct (abs g e) as [v|] eqn:E.
+    + destruct (abs_sound beta g rho Harg Hslot e v E) as [_ U]. rewrite U. eauto.
+    + destruct (d2i_free e) eqn:Df; [|discriminate]. rewrite (d2i_free_noub rho e Df). eauto.
+  - cbn [aset_pre] in H. cbn [exec_w]. destruct (d2i_free c) eqn:Dc; [|discriminate]. rewrite (d2i_free_noub rho c Dc).
+    destruct (aset_pre g w1 ap) as [a1 f1] eqn:E1. destruct (aset_pre g w2 ap) as [a2 f2] eqn:E2.
+    destruct (f1 && f2 && Nat.eqb (length a1) (length a2)) eqn:Q; [|discriminate].
+    rewrite !andb_true_iff in Q. destruct Q as [[Q1 Q2] _]. subst f1 f2.
+    destruct (ieval rho c =? 0); [eapply IHw2|eapply IHw1]; eauto.
+Qed.
+
+Theorem layout_sound : layout_sound_stmt.
+Proof.
+  intros s ref LM args IR.
+  set (beta := fun a => arg_int args a). set (rho := set_env s args). set (g := arg_env (s_args s)).
+  assert (Harg: forall a x, ae_arg g a = Some x -> represents beta x (arg_int (e_args rho) a)) by (apply arg_env_sound; exact IR).
+  assert (Hslot: forall k x, ae_slot g k = Some x -> represents beta x (slot_int (e_slots rho) k)) by (intros k x Q; discriminate Q).
+  unfold layout_matches, layout_complete in *. fold g in LM. fold g.
+  destruct (aset_pre g (s_body s) []) as [ap fin] eqn:AP. cbn [fst snd] in *.
+  split.
+  - intros msg X. unfold exec_set in X. fold rho in X. destruct (exec_w rho (s_body s) []) as [data|] eqn:XW; [|discriminate].
+    inversion X; subst msg; clear X. cbn [m_data].
+    destruct (aset_pre_sim beta rho g Harg Hslot (s_body s) [] ap fin [] data AP (Forall2_nil _) XW) as [k [rest [D [Rk _]]]]. subst data.
+    set (mk := {| m_pgn := 0; m_prio := 0; m_dest := 0; m_len := zlen k; m_data := k |}).
+    assert (Hd: Forall2 (byte_rel beta rho) ap (m_data mk)) by exact Rk.
+    assert (LK := Forall2_len _ _ _ Rk).
+    rewrite forallb_forall in LM. apply Forall_forall. intros f Hf. specialize (LM f Hf).
+    unfold field_ok in LM. unfold field_holds. destruct (rf_kind f) as [sgn|sg r| |tag].
+    + (* integer field *)
+      destruct (nth_error (s_args s) (rf_arg f)) as [[w sg| |]|] eqn:Ga; try discriminate.
+      rewrite !andb_true_iff in LM. destruct LM as [[[W O] AB] FA]. apply Z.ltb_lt in W. apply Z.leb_le in O. apply Z.leb_le in AB.
+      rewrite forallb_forall in FA. intros j Hj. specialize (FA (Z.to_nat j)). rewrite in_seq in FA. specialize (FA ltac:(lia)).
+      rewrite Z2Nat.id in FA by lia.
+      destruct (pbit ap (rf_off f + j)) as [b|] eqn:PB; [|discriminate]. apply bt_eqb_eq in FA.
+      assert (Q := int_bit_rel beta rho mk ap Hd (rf_off f + j) b PB ltac:(lia)). cbn [m_data mk] in Q.
+      unfold payload_bit.
+      assert (Hi: (Z.to_nat ((rf_off f + j) / 8) < length k)%nat).
+      { unfold pbit in PB. destruct (Nat.lt_ge_cases (Z.to_nat ((rf_off f + j) / 8)) (length ap)); [lia|].
+        rewrite nth_overflow in PB by lia. discriminate. }
+      rewrite app_nth1 by exact Hi. rewrite Q, FA.
+      destruct (Forall2_nth_error _ _ _ IR _ _ Ga) as [v [Hv Ok]]. destruct v; try contradiction. cbn [arg_ok] in Ok.
+      assert (RA: represents beta (av_arg (rf_arg f) w sg) (beta (rf_arg f))).
+      { apply rep_arg; [exact W|]. unfold beta, arg_int. rewrite Hv. exact Ok. }
+      rewrite <- RA. unfold beta. f_equal. lia.
+    + (* scaled field *)
+      rewrite !andb_true_iff in LM. destruct LM as [[[[O8 L8] Nn] In] WW]. apply Z.eqb_eq in O8. apply Z.eqb_eq in L8. apply Nat.ltb_lt in Nn.
+      set (n := Z.to_nat (rf_len f / 8)) in *.
+      destruct (window ap (rf_off f / 8) n) as [|[|n' s' p' dd i'| |] rw] eqn:W; try discriminate.
+      destruct dd; try discriminate. destruct i'; try discriminate.
+      destruct (nth_error (s_args s) (rf_arg f)) as [[| |]|] eqn:Ga; try discriminate.
+      apply andb_true_iff in WW. destruct WW as [DW SG]. rewrite <- W in DW.
+      exists s'. split.
+      { destruct sg as [s0|]; [right; apply eqb_prop in SG; now subst|now left]. }
+      assert (FE := dbl_window_field beta rho mk ap Hd eq_refl n s' (r_bits r) (DArg (rf_arg f)) (rf_off f / 8) In DW). cbn [m_data mk] in FE.
+      unfold inside in In. apply andb_true_iff in In. destruct In as [I0 I1]. apply Z.leb_le in I0. apply Z.leb_le in I1.
+      rewrite field_app_l by lia. rewrite FE. cbn [deval]. unfold rho. cbn [e_args set_env]. reflexivity.
+    + (* text *)
+      rewrite !andb_true_iff in LM. destruct LM as [[[[O8 L8] Nn] In] WW]. apply Nat.ltb_lt in Nn.
+      assert (L0: 0 <= rf_len f / 8) by lia.
+      replace (Z.of_nat (Z.to_nat (rf_len f / 8))) with (rf_len f / 8) in In by lia.
+      assert (FE := str_window_field beta rho mk ap Hd eq_refl (rf_len f / 8) (rf_arg f) (rf_off f / 8) L0 In WW). cbn [m_data mk] in FE.
+      unfold inside in In. apply andb_true_iff in In. destruct In as [I0 I1]. apply Z.leb_le in I0. apply Z.leb_le in I1.
+      rewrite field_app_l by lia. rewrite FE. unfold rho. cbn [e_args set_env]. reflexivity.
+    + exact I.
+  - intros C. subst fin. destruct (aset_pre_total beta rho g Harg Hslot (s_body s) [] ap [] AP (Forall2_nil _)) as [y1 X].
+    unfold exec_set. fold rho. rewrite X. eauto.
+Qed.
+
 Print Assumptions guard_sound.
 Print Assumptions locality.
 Print Assumptions roundtrip_sound.
 Print Assumptions scaled_rt_spec.
+Print Assumptions layout_sound.
